@@ -244,8 +244,14 @@ static bool oneOp(C& a, Model& ma, C& b, Model& mb)
   case 6: { Key k = freshKey(); a.remove(k); int i = ma.find(k.v); if(i >= 0) ma.removeAt(i); break; }
 #if KIND != 3
   case 7: { // assignment / copy: order and contents of the source; positions of the destination are new
-    if(vf_pick(2)) { a = b; ma = mb; check(a, ma, false); }
-    else { C cpy(a); Model mc = ma; check(cpy, mc, false); vf_assert(cpy == a, "copy == source"); vf_assert(!(cpy != a), "!(copy != source)"); }
+    unsigned w = vf_pick(KIND == 2 ? 5 : 3);
+    if(w == 0) { a = b; ma = mb; check(a, ma, false); }
+    else if(w == 1) { C cpy(a); Model mc = ma; check(cpy, mc, false); vf_assert(cpy == a, "copy == source"); vf_assert(!(cpy != a), "!(copy != source)"); }
+    else if(w == 2) { a = a; }                       // self-assignment: contents unchanged (C04)
+#if KIND == 2
+    else if(w == 3) { a.append(a); }                 // the set appended to itself: unchanged
+    else { a.remove(a); ma.n = 0; }                  // the set removed from itself: as if the argument had been copied first -> empty
+#endif
     break; }
   case 8: { bool eq = a == b; vf_assert(eq == modelsEqual(ma, mb), "operator== is order-sensitive equality of the model"); vf_assert((a != b) == !eq, "operator!= is the negation"); break; }
 #endif
